@@ -197,6 +197,7 @@ impl Mon {
             Ev::EnableOnly(k) => pending_cfg = Some((sent.unwrap()[0] & 0x0F, true, [*k == 1, *k == 2, *k == 3])),
             Ev::DisableOnly(k) => pending_cfg = Some((sent.unwrap()[0] & 0x0F, false, [*k == 1, *k == 2, *k == 3])),
             Ev::Read(..) | Ev::ReadClass0 | Ev::ReadBinaryEvents => read_now = Some(sent.unwrap()[0] & 0x0F),
+            Ev::RepeatRead => read_now = sent.map(|f| f[0] & 0x0F),
             Ev::Other => {}
             Ev::Reconnect | Ev::Replace => {
                 self.out = None;
@@ -209,7 +210,7 @@ impl Mon {
         let is_request = matches!(
             ev,
             Ev::Disable | Ev::DisableC1 | Ev::EnableAll | Ev::EnableC1 | Ev::EnableOnly(_) | Ev::DisableOnly(_) | Ev::Other | Ev::Read(..) | Ev::ReadClass0 | Ev::ReadBinaryEvents
-        );
+        ) || (*ev == Ev::RepeatRead && sent.is_some());
         if is_request {
             let seq = sent.unwrap()[0] & 0x0F;
             if self.awaited(t_before) {
@@ -541,8 +542,23 @@ fn scenarios(tier: &str) -> Vec<C14> {
         },
         rd: 5000,
     };
+    // a READ answered from idle and sent again, byte for byte, during a later unsolicited wait
+    let repeat = C14 {
+        inner: C03 {
+            name: "repeat-read-d6-rd5000-retries0".to_string(),
+            alphabet: vec![Ev::UnsConfirm(true), Ev::EnableAll, Ev::ReadClass0, Ev::Read(true, false, false, None), Ev::Upd(Pt::B0), Ev::RepeatRead, Ev::Adv(TO), Ev::Other],
+            depth: 6,
+            unsol: true,
+            buf: 5,
+            cto: false,
+            retries: Some(0),
+            overflow_model: false,
+        },
+        rd: 5000,
+    };
     let mut v = vec![
         classes,
+        repeat,
         mk("d5-rd5000-retries0", 5, 5000, Some(0), false),
         mk("d5-rd5000-retries1", 5, 5000, Some(1), false),
         mk("d4-rd2000-retries1", 4, 2000, Some(1), true),
